@@ -40,6 +40,9 @@ META = {
 }
 
 
+GC_EACH_RUN = True  # see sim/worker.run_tape
+
+
 def tier_cfg(tier):
     return {"maxn": 12 if tier == "quick" else 40, "fresh_den": 150 if tier == "quick" else 60}
 
